@@ -8,8 +8,8 @@ package bundle
 // integer (no 64-bit wrap).
 //@ uf secSum([1]sectionOffset, int, int) mathint
 //@ axiom secSum_zero: forall a [1]sectionOffset, o int :: {secSum(a, o, 0)} secSum(a, o, 0) == 0
-//@ axiom secSum_step: forall a [1]sectionOffset, o int, k int :: {secSum(a, o, k), a[ix(o, k)]} k >= 0 ==> secSum(a, o, k + 1) == secSum(a, o, k) + a[ix(o, k)].Length
 //@ axiom secSum_nonneg: forall a [1]sectionOffset, o int, k int :: {secSum(a, o, k)} k >= 0 ==> secSum(a, o, k) >= 0
+//@ axiom secSum_step: forall a [1]sectionOffset, o int, k int :: {secSum(a, o, k), a[ix(o, k)]} k >= 0 && a[ix(o, k)].Length >= 0 ==> secSum(a, o, k + 1) == secSum(a, o, k) + a[ix(o, k)].Length
 
 //@ func FindSection
 //@   props C05 C10
